@@ -20,6 +20,8 @@ package regexp2
 //   F-fc      M(p) => the first character is in the published first-character set
 //   F-skip    the finder started at any q returns a position r with no M in [q, r) (mirrored for right-to-left); when it
 //             reports "not found" there is no M at r either (scan goes on from the position after r, or stops at the end)
+//   F-iter    the FindNextMatch sequence is ordered and disjoint, ends, and each step equals an independent search
+//             from the end of the previous match (one further after an empty match)
 //   F-e2e     for every start offset the rune API and the string API return exactly the match (position, length, every
 //             capture of every group) of the naive scan: attempt at every position in scan order, first success wins
 // Labelled "bounded" in the evidence; never counted as proved.
@@ -498,6 +500,10 @@ func factsOne(re *Regexp, pat string, opt factsOpt, texts [][]rune, report facts
 			byteOff = append(byteOff, i)
 		}
 		byteOff = append(byteOff, len(str))
+		if factsE2E >= 2 || (factsE2E == 1 && (n <= 2 || n >= 5)) {
+			// quick tier: the shortest texts and the hand-picked longer ones
+			factsIter(re, pat, opt, text, rtl, report)
+		}
 		for s := 0; s <= n && factsE2E > 0; s++ {
 			if factsE2E == 1 && s != origin {
 				continue // quick tier: default start offset only
@@ -564,6 +570,60 @@ func factsOne(re *Regexp, pat string, opt factsOpt, texts [][]rune, report facts
 	}
 	re.putRunner(r)
 	return
+}
+
+// F-iter (C07 side of the same public calls): the FindNextMatch sequence is ordered, disjoint, ends within n+2 steps,
+// and each next match is what an independent search finds from the end of the previous match (one position further
+// after an empty match). Patterns with \G are left out: FindNextMatch keeps the previous position as the \G origin.
+func factsIter(re *Regexp, pat string, opt factsOpt, text []rune, rtl bool, report factsReport) {
+	if strings.Contains(pat, `\G`) {
+		return
+	}
+	defer func() {
+		if x := recover(); x != nil {
+			report("F-iter", pat, opt, text, fmt.Sprintf("iteration panics: %v", x))
+		}
+	}()
+	n := len(text)
+	describe := func(m *Match, err error) string {
+		if err != nil {
+			return "error " + err.Error()
+		}
+		if m == nil {
+			return "no match"
+		}
+		return fmt.Sprintf("match at %d+%d captures %s", m.RuneIndex, m.RuneLength, factsSignature(m))
+	}
+	m, err := re.FindRunesMatch(text)
+	for steps := 0; m != nil && err == nil; steps++ {
+		if steps > n+2 {
+			report("F-iter", pat, opt, text, "the FindNextMatch sequence does not end")
+			return
+		}
+		next, nerr := re.FindNextMatch(m)
+		pos, stop, bump := m.RuneIndex+m.RuneLength, n, 1
+		if rtl {
+			pos, stop, bump = m.RuneIndex, 0, -1
+		}
+		want := "no match"
+		if !(m.RuneLength == 0 && pos == stop) {
+			if m.RuneLength == 0 {
+				pos += bump
+			}
+			want = describe(re.FindRunesMatchStartingAt(text, pos))
+		}
+		if got := describe(next, nerr); got != want {
+			report("F-iter", pat, opt, text, fmt.Sprintf("after match at %d+%d FindNextMatch gives %s, an independent search from %d gives %s", m.RuneIndex, m.RuneLength, got, pos, want))
+			return
+		}
+		if next != nil {
+			if (!rtl && next.RuneIndex < m.RuneIndex+m.RuneLength) || (rtl && next.RuneIndex+next.RuneLength > m.RuneIndex) {
+				report("F-iter", pat, opt, text, fmt.Sprintf("match at %d+%d is followed by an overlapping match at %d+%d", m.RuneIndex, m.RuneLength, next.RuneIndex, next.RuneLength))
+				return
+			}
+		}
+		m, err = next, nerr
+	}
 }
 
 // the facts of the find-optimisation record, checked directly against one successful attempt at p
